@@ -99,6 +99,13 @@ where
         decoder
             .take(expected_output_size as u64)
             .read_to_end(&mut buffer)?;
+        if buffer.len() != expected_output_size {
+            return Err(AsepriteParseError::InvalidInput(format!(
+                "Invalid compressed data size. Expected: {}, Actual: {}",
+                expected_output_size,
+                buffer.len()
+            )));
+        }
         Ok(buffer)
     }
 }
